@@ -6,7 +6,7 @@ Strict == IOEnv.VERIF_STRICT = "1"
 VARIABLES l, obs, gated      \* gated: the run held the reader goroutine at its hook point, so observations are exact in every state
 tvars == <<vars, l, obs, gated>>
 E == TraceLog[l]
-Obs0 == [table |-> <<>>, tgot |-> [s \in Socks |-> <<>>], tside |-> [s \in Socks |-> "none"], q |-> <<>>,
+Obs0 == [dn |-> [s \in Socks |-> [ok |-> TRUE, h |-> 0, q |-> 0]], table |-> <<>>, tgot |-> [s \in Socks |-> <<>>], tside |-> [s \in Socks |-> "none"], q |-> <<>>,
          agot |-> [s \in Socks |-> <<>>], atold |-> <<>>, locked |-> FALSE, done |-> TRUE]
 TraceInit == Init /\ l = 1 /\ obs = Obs0 /\ gated = FALSE
 IsEvent(e) == l <= Len(TraceLog) /\ E.ev = e /\ l' = l + 1
@@ -32,10 +32,22 @@ Merge(ts) == IF Len(ts) < 2 THEN ts
              ELSE LET a == ts[1] b == ts[2] IN
                   IF a.k = "w" /\ b.k = "w" /\ a.s = b.s THEN Merge(<<[k |-> "w", s |-> a.s, d |-> a.d \o b.d]>> \o SubSeq(ts, 3, Len(ts)))
                   ELSE <<a>> \o Merge(Tail(ts))
-(* strict: the relay is deterministic once the reader goroutine has had its turn *)
+ChunkSize == [a |-> 10, B |-> 70000, x |-> 12, Y |-> 50000]
+RECURSIVE Bytes(_)
+Bytes(cs) == IF cs = <<>> THEN 0 ELSE ChunkSize[Head(cs)] + Bytes(Tail(cs))
+(* the down direction as a stream: the relay's reads do not stop where the target's writes did, so what has been passed on
+   (handed to the agent + queued for it) is a prefix of what the target wrote, byte for byte, at least as long as what the
+   reader's turns so far must have passed on and complete once nothing is in flight *)
+DownOK(o, s, exact) == /\ o.dn[s].ok
+                       /\ o.dn[s].h + o.dn[s].q <= Bytes(wrote[s])
+                       /\ ((exact /\ s \notin byagent) =>
+                              (/\ o.dn[s].h + o.dn[s].q >= Bytes(agot[s] \o QW(q, s))
+                               /\ o.dn[s].h >= Bytes(agot[s])
+                               /\ ((held[s] = <<>> /\ pend[s] = <<>>) => (o.dn[s].h + o.dn[s].q = Bytes(wrote[s])))))
+(* strict: beyond the property, the table, the target's view and the close tasks are what the model says *)
 Bound == /\ tgot' = E.st.tgot
          /\ (gated \/ \A s \in Socks : ~ReaderEnabled(s)') =>
-               /\ Merge(q') = E.st.q /\ agot' = E.st.agot /\ atold' = ToSet(E.st.atold)
+               /\ atold' = ToSet(E.st.atold)
                /\ ListedOf(E.st.table) = {s \in Socks : ent'[s] \in {"listed", "open"}}
                /\ \A s \in Socks : tside'[s] = "eof" <=> E.st.tside[s] = "eof"
          /\ E.st.done /\ ~E.st.locked
@@ -50,7 +62,7 @@ ObsTold(s) == s \in ToSet(obs.atold) \/ \E i \in 1..Len(obs.q) : obs.q[i].k = "c
 MonUpIntact == \A s \in Socks : obs.tgot[s] = sent[s]
 (* what the target wrote is what the agent is handed (same socket id), in order, once the relay has had its turn -
    while the connection is still open, not only at its end *)
-MonDownIntact == Quiet => \A s \in Socks \ byagent : obs.agot[s] = agot[s] /\ obs.agot[s] \o QW(obs.q, s) \o held[s] \o pend[s] = wrote[s]
+MonDownIntact == \A s \in Socks : DownOK(obs, s, Quiet)
 (* closing either side removes the socket everywhere *)
 MonClosedEverywhere == Quiet => \A s \in Socks :
     /\ (tside[s] = "closed" /\ rd[s] = "exit" /\ s \notin byagent) => (s \notin ObsListed /\ ObsTold(s))
